@@ -3,6 +3,7 @@
 
 mod apps;
 mod codec;
+mod dbgtrace;
 mod drivers;
 mod explore;
 mod link;
